@@ -63,7 +63,8 @@ class PolyAFixer:
 
         if polyt_exon_count > 0 and polya_exon_count > 0:
             logger.debug("Both PolyA and PolyT fake terminal exons found: %d, %d" % (polya_exon_count, polyt_exon_count))
-        if polyt_exon_count + polya_exon_count == len(read_exons):
+        while polyt_exon_count + polya_exon_count >= len(read_exons):
+            # never trim all exons: polyA and polyT counts may overlap, keep at least one exon
             logger.debug("All exons seem to be consist of polyA/T")
             polyt_exon_count -= 1
             polya_exon_count -= 1
